@@ -131,3 +131,19 @@ CHECKS['C06'] = {
              'word of ascii_dump | lp/mip | reference status | pricing) configurations with >= 1 constraint and dim >= 1.'),
     'assumptions': ['GMP arithmetic', 'RefLP + own integer enumeration / branch and bound (node cap => inconclusive)'],
 }
+
+CHECKS['C12'] = {
+    'level': 'exploration',
+    'jobs': [
+        {'engine': 'ivalencl', 'variant': 'san', 'profile': 'default', 'quick': 48000, 'thorough': 1200000, 'avg_case_s': 0.004},
+        {'engine': 'fplin', 'variant': 'san', 'profile': 'default', 'quick': 4000, 'thorough': 40000, 'avg_case_s': 0.05},
+    ],
+    'prefixes': ['C12.'],
+    'required_counters': ['encl_checks', 'exact_checks', 'flag_checks', 'pred_checks', 'op.mul', 'op.div', 'op.wrap_assign', 'op.refine_universal', 'pol.rat_oc', 'pol.flt_oc',
+                          'pol.dbl_oc', 'pol.ldbl_oc', 'pol.i8_c', 'lin_evals', 'linearize_true', 'lf_checks', 'roundings_checked', 'emulator_selftest_ok'],
+    'rule': ('ivalencl: case = pool of 3 intervals of one of 9 policies (rational open/closed, mpz, int8/uint8/int32/int64, float/double/long double), 4-12 operations; evaluations = sampled member '
+             'pairs applied exactly in mpq and tested for membership + exact-reference equalities + flag/predicate re-derivations; distinct_nontrivial = distinct (policy | operation | '
+             'sign/openness/infinity class of each operand | class of result). fplin: case = one random expression tree with its abstract store (every subtree checked at 60/500 concrete '
+             'stores x 4 rounding modes with machine arithmetic) or 3-8 linear-form operator steps at 6 rational stores.'),
+    'assumptions': ['GMP arithmetic', 'member sampling at end points, just inside open ends, midpoints, zero and random interior points', 'x86-64 FPU for the concrete evaluations'],
+}
